@@ -596,6 +596,25 @@ fn make_configs(rng: &mut Rng) -> Vec<LintGroupConfig> {
         c.set_rule_enabled(format!("line\nbreak\r\"{}", i), true);
         v.push(c);
     }
+    // rules that are PRESENT BUT UNSET (`"Rule": null`): what `clear()` leaves behind (and what
+    // `merge_from` does to its argument), and what a JSON with explicit nulls deserialises to
+    let mut c = LintGroupConfig::default();
+    c.fill_with_curated();
+    c.clear();
+    v.push(c.clone());
+    c.set_rule_enabled("SpellCheck", true);
+    c.set_rule_enabled("LongSentences", false);
+    v.push(c);
+    if let Ok(c) = serde_json::from_str::<LintGroupConfig>(r#"{"LongSentences": null, "SpellCheck": true, "AnA": null, "x\ny": null}"#) {
+        v.push(c);
+    }
+    let mut a = LintGroupConfig::default();
+    a.set_rule_enabled("AnA", true);
+    let mut b = LintGroupConfig::default();
+    b.set_rule_enabled("SpellCheck", false);
+    a.merge_from(&mut b);
+    v.push(b);
+    v.push(a);
     v
 }
 
